@@ -48,6 +48,7 @@ class Compiler:
     def compile(self, query, parameters=None):
         """Compile an AST into an executable statement."""
         self.parameters = parameters
+        self.subquery = True
 
         placeholders = [node for node in query.walk() if isinstance(node, ast.Placeholder)]
         if placeholders:
@@ -79,6 +80,11 @@ class Compiler:
 
     @_compile.register
     def _select(self, node: ast.Select):
+
+        # A SELECT is a statement, a FROM clause or the right hand side of IN.
+        if not self.subquery:
+            raise CompilationError('subquery is not supported in this context', node)
+        self.subquery = False
 
         # Compile the FROM clause.
         c_from_expr = self._compile_from(node.from_clause)
@@ -146,6 +152,7 @@ class Compiler:
 
         # Subquery.
         if isinstance(node, ast.Select):
+            self.subquery = True
             self.table = SubqueryTable(self._compile(node))
             return None
 
@@ -551,7 +558,9 @@ class Compiler:
     @_compile.register(ast.NotIn)
     def _inop(self, node: Union[ast.In, ast.NotIn]):
         left = self._compile(node.left)
+        self.subquery = isinstance(node.right, ast.Select)
         right = self._compile(node.right)
+        self.subquery = False
 
         if isinstance(right, EvalQuery):
             if len(right.columns) != 1:
